@@ -43,8 +43,8 @@ def ItemOK : IterItem → Prop
 
 def LoopHdrOK (V : String → Prop) : LoopHdr → Prop
   | .forever => True
-  | .count n => RvOK n
-  | .while_ c => RvOK c
+  | .count n => RvC V n
+  | .while_ c => RvC V c
   | .range _ a b => RvOK a ∧ RvOK b
   | .interp n v a b => RvOK n ∧ WithOK (.fromTo v a b)
   | .cycle n v start => RvOK n ∧ WithOK (.cycle v start)
@@ -56,24 +56,24 @@ def LoopHdrOK (V : String → Prop) : LoopHdr → Prop
 mutual
   /-- statements of the fragment -/
   def FragStmt (V : String → Prop) : Stmt → Prop
-    | .setReg r v => SettableReg r ∧ RvOK v
+    | .setReg r v => SettableReg r ∧ RvC V v
     | .units _ => True
     | .actAll _ => True
     | .setDefault => True
     | .action _ ops => FragOperands V ops
-    | .get name => RvOK name
+    | .get name => RvC V name
     | .wait => True
     | .timeAt _ => True
-    | .assign _ v => RvOK v
+    | .assign _ v => RvC V v
     | .defMacro _ _ => True
     | .defRoutine _ _ _ => False
-    | .call _ ps as => SimpleArgs as ∧ NoResultReg as ∧ ps.Nodup
-    | .ret v => (match v with | some rv => RvOK rv | none => True)
-    | .ite c t e => RvOK c ∧ FragBlock V t ∧ (match e with | some b => FragBlock V b | none => True)
+    | .call _ ps as => ArgsC V as ∧ ps.Nodup
+    | .ret v => (match v with | some rv => RvC V rv | none => True)
+    | .ite c t e => RvC V c ∧ FragBlock V t ∧ (match e with | some b => FragBlock V b | none => True)
     | .repeat_ h body => LoopHdrOK V h ∧ FragBlock V body
     | .brk => True
-    | .print v => RvOK v
-    | .println v => (match v with | some rv => RvOK rv | none => True)
+    | .print v => RvC V v
+    | .println v => (match v with | some rv => RvC V rv | none => True)
     | .printf fmt as =>
       ArgsOK as ∧ as.toList.length ≤ positionalCount (fmt.replace "\\n" "\n").toList ∧
         "result" ∉ fieldNames (fmt.replace "\\n" "\n").toList
@@ -107,8 +107,46 @@ def StmtGoal (img : Image) (K : Ctx) (st : Stmt) (f : Nat) : Prop :=
 
 variable {img : Image} {K : Ctx}
 
-theorem stmt_setReg (f : Nat) (r : Reg) (v : Rv) (hr : SettableReg r) (hv : RvOK v) :
-    StmtGoal img K (.setReg r v) (f + 1) := by
+/-! ### value positions (with calls) at statement level -/
+
+/-- a failed evaluation is not one of the outcomes the theorem talks about -/
+theorem errorC_excluded {v : Rv} {f : Nat} {σ : S} {o : Outcome}
+    (hev : evalRv f v σ = .error o) (ho : o = .normal ∨ o = .brk) : False := by
+  have := evalRvC_error hev
+  rcases ho with rfl | rfl <;> simp at this
+
+/-- … delivered in `result` (condition, printed value, returned value) -/
+theorem rv_toResult {f : Nat} (ihRv : RvToGoal V img K f) (v : Rv) (hv : RvC V v) {stk : Stk} {σ σ' : S}
+    {s : State} {pc : Nat} {x : Val} (h : Sim K stk σ s) (hpc : s.pc = (pc : Int))
+    (hc : CodeAt img pc (genRv v (.to Gen.result))) (hev : evalRv f v σ = .ok (x, σ')) :
+    Exec img s (fun t => At K (pc + (genRv v (.to Gen.result)).length) stk [] σ' t ∧ t.regs .result = x) := by
+  refine (ihRv v hv Gen.result (by simp [Gen.result]) σ σ' x s pc stk h hpc hc hev
+    (fun s0 h0 => h0.running)).mono fun t ⟨s0, h0, ht⟩ => ?_
+  subst ht
+  exact ⟨⟨rfl, (h0.setResult x).setPc _⟩, by simp [Gen.result, State.put, State.setReg]⟩
+
+/-- … into a register -/
+theorem rv_setReg {f : Nat} (ihRv : RvToGoal V img K f) (v : Rv) (hv : RvC V v) (r : Reg) (hr : SettableReg r)
+    {stk : Stk} {σ σ' : S} {s : State} {pc : Nat} {x : Val} (h : Sim K stk σ s) (hpc : s.pc = (pc : Int))
+    (hc : CodeAt img pc (genRv v (.to (.reg r)))) (hev : evalRv f v σ = .ok (x, σ')) :
+    Exec img s (At K (pc + (genRv v (.to (.reg r))).length) stk [] (σ'.setReg r x)) := by
+  refine (ihRv v hv (.reg r) (by simpa using hr.1) σ σ' x s pc stk h hpc hc hev
+    (fun s0 h0 => h0.running)).mono fun t ⟨s0, h0, ht⟩ => ?_
+  subst ht
+  exact ⟨rfl, (h0.setReg r x hr).setPc _⟩
+
+/-- … into a variable -/
+theorem rv_assign {f : Nat} (ihRv : RvToGoal V img K f) (v : Rv) (hv : RvC V v) (n : String)
+    {stk : Stk} {σ σ' : S} {s : State} {pc : Nat} {x : Val} (h : Sim K stk σ s) (hpc : s.pc = (pc : Int))
+    (hc : CodeAt img pc (genRv v (.to (.var n)))) (hev : evalRv f v σ = .ok (x, σ')) :
+    Exec img s (At K (pc + (genRv v (.to (.var n))).length) stk [] (σ'.assign n x)) := by
+  refine (ihRv v hv (.var n) (by simp) σ σ' x s pc stk h hpc hc hev
+    (fun s0 h0 => (h0.assign n x).running)).mono fun t ⟨s0, h0, ht⟩ => ?_
+  subst ht
+  exact ⟨rfl, (h0.assign n x).setPc _⟩
+
+theorem stmt_setReg (f : Nat) (ihRv : RvToGoal V img K f) (r : Reg) (v : Rv) (hr : SettableReg r)
+    (hv : RvC V v) : StmtGoal img K (.setReg r v) (f + 1) := by
   intro σ σ' o s pc exit stk sim hpc hc h ho
   simp only [genStmt, resolve_ins, ins_length] at hc ⊢
   simp only [execStmt] at h
@@ -116,15 +154,13 @@ theorem stmt_setReg (f : Nat) (r : Reg) (v : Rv) (hr : SettableReg r) (hv : RvOK
   · rename_i x σ1 hev
     simp only [Prod.mk.injEq] at h
     obtain ⟨rfl, rfl⟩ := h
-    obtain ⟨rfl, hex⟩ := exec_setReg v hv r hr sim hpc hc hev
-    exact hex
+    exact rv_setReg ihRv v hv r hr sim hpc hc hev
   · rename_i o' hev
     simp only [Prod.mk.injEq] at h
     obtain ⟨rfl, rfl⟩ := h
-    have := evalRv_error hv f σ _ hev
-    rcases ho with rfl | rfl <;> simp at this
+    exact (errorC_excluded hev ho).elim
 
-theorem stmt_assign (f : Nat) (n : String) (v : Rv) (hv : RvOK v) :
+theorem stmt_assign (f : Nat) (ihRv : RvToGoal V img K f) (n : String) (v : Rv) (hv : RvC V v) :
     StmtGoal img K (.assign n v) (f + 1) := by
   intro σ σ' o s pc exit stk sim hpc hc h ho
   simp only [genStmt, resolve_ins, ins_length] at hc ⊢
@@ -133,13 +169,11 @@ theorem stmt_assign (f : Nat) (n : String) (v : Rv) (hv : RvOK v) :
   · rename_i x σ1 hev
     simp only [Prod.mk.injEq] at h
     obtain ⟨rfl, rfl⟩ := h
-    obtain ⟨rfl, hex⟩ := exec_assign v hv n sim hpc hc hev
-    exact hex
+    exact rv_assign ihRv v hv n sim hpc hc hev
   · rename_i o' hev
     simp only [Prod.mk.injEq] at h
     obtain ⟨rfl, rfl⟩ := h
-    have := evalRv_error hv f σ _ hev
-    rcases ho with rfl | rfl <;> simp at this
+    exact (errorC_excluded hev ho).elim
 
 
 /-- a failed evaluation is not one of the outcomes the theorem talks about -/
@@ -148,7 +182,8 @@ theorem error_excluded {v : Rv} (hv : RvOK v) {f : Nat} {σ : S} {o : Outcome}
   have := evalRv_error hv f σ _ hev
   rcases ho with rfl | rfl <;> simp at this
 
-theorem stmt_print (f : Nat) (v : Rv) (hv : RvOK v) : StmtGoal img K (.print v) (f + 1) := by
+theorem stmt_print (f : Nat) (ihRv : RvToGoal V img K f) (v : Rv) (hv : RvC V v) :
+    StmtGoal img K (.print v) (f + 1) := by
   intro σ σ' o s pc exit stk sim hpc hc h ho
   simp only [genStmt, resolve_ins, ins_length] at hc ⊢
   simp only [execStmt] at h
@@ -156,8 +191,7 @@ theorem stmt_print (f : Nat) (v : Rv) (hv : RvOK v) : StmtGoal img K (.print v) 
   · rename_i x σ1 hev
     simp only [Prod.mk.injEq] at h
     obtain ⟨rfl, rfl⟩ := h
-    obtain ⟨rfl, hex⟩ := exec_toResult v hv sim hpc hc.left hev
-    refine hex.trans fun t ⟨ht, hres⟩ => ?_
+    refine (rv_toResult ihRv v hv sim hpc hc.left hev).trans fun t ⟨ht, hres⟩ => ?_
     refine (exec_outRegister ht.2 ht.1 hc.right.head).trans fun t2 ht2 => ?_
     rw [hres] at ht2
     refine (exec_outPrint x _ ht2.2 ht2.1 hc.right.tail.head).mono fun t3 ht3 => ?_
@@ -165,10 +199,10 @@ theorem stmt_print (f : Nat) (v : Rv) (hv : RvOK v) : StmtGoal img K (.print v) 
   · rename_i o' hev
     simp only [Prod.mk.injEq] at h
     obtain ⟨rfl, rfl⟩ := h
-    exact (error_excluded hv hev ho).elim
+    exact (errorC_excluded hev ho).elim
 
-theorem stmt_println (f : Nat) (v : Option Rv)
-    (hv : match v with | some rv => RvOK rv | none => True) :
+theorem stmt_println (f : Nat) (ihRv : RvToGoal V img K f) (v : Option Rv)
+    (hv : match v with | some rv => RvC V rv | none => True) :
     StmtGoal img K (.println v) (f + 1) := by
   intro σ σ' o s pc exit stk sim hpc hc h ho
   cases v with
@@ -178,15 +212,14 @@ theorem stmt_println (f : Nat) (v : Option Rv)
     obtain ⟨rfl, rfl⟩ := h
     exact exec_outPrintEnd _ sim hpc hc.head
   | some rv =>
-    have hv : RvOK rv := hv
+    have hv : RvC V rv := hv
     simp only [genStmt, resolve_ins, ins_length] at hc ⊢
     simp only [execStmt] at h
     split at h
     · rename_i x σ1 hev
       simp only [Prod.mk.injEq] at h
       obtain ⟨rfl, rfl⟩ := h
-      obtain ⟨rfl, hex⟩ := exec_toResult rv hv sim hpc hc.left.left hev
-      refine hex.trans fun t ⟨ht, hres⟩ => ?_
+      refine (rv_toResult ihRv rv hv sim hpc hc.left.left hev).trans fun t ⟨ht, hres⟩ => ?_
       refine (exec_outRegister ht.2 ht.1 hc.left.right.head).trans fun t2 ht2 => ?_
       rw [hres] at ht2
       refine (exec_outPrint x _ ht2.2 ht2.1 hc.left.right.tail.head).trans fun t3 ht3 => ?_
@@ -198,7 +231,7 @@ theorem stmt_println (f : Nat) (v : Option Rv)
     · rename_i o' hev
       simp only [Prod.mk.injEq] at h
       obtain ⟨rfl, rfl⟩ := h
-      exact (error_excluded hv hev ho).elim
+      exact (errorC_excluded hev ho).elim
 
 theorem stmt_defMacro (f : Nat) (n : String) (v : Val) : StmtGoal img K (.defMacro n v) (f + 1) := by
   intro σ σ' o s pc exit stk sim hpc hc h ho
@@ -590,7 +623,8 @@ theorem stmt_actAll (f : Nat) (k : ActKind) : StmtGoal img K (.actAll k) (f + 1)
   refine (exec_fire k ht3.2 ht3.1 hc'.right.tail.tail.head hfire).mono fun t4 ht4 => ?_
   simpa [Target, List.length_append, Nat.add_assoc] using ht4
 
-theorem stmt_get (f : Nat) (name : Rv) (hv : RvOK name) : StmtGoal img K (.get name) (f + 1) := by
+theorem stmt_get (f : Nat) (ihRv : RvToGoal V img K f) (name : Rv) (hv : RvC V name) :
+    StmtGoal img K (.get name) (f + 1) := by
   intro σ σ' o s pc exit stk sim hpc hc h ho
   simp only [genStmt, resolve_ins, ins_length] at hc ⊢
   simp only [execStmt] at h
@@ -598,8 +632,7 @@ theorem stmt_get (f : Nat) (name : Rv) (hv : RvOK name) : StmtGoal img K (.get n
   · rename_i n σ1 hev
     have hn := device_outcome h ho
     subst hn
-    obtain ⟨rfl, hex⟩ := exec_toResult name hv sim hpc hc.left hev
-    refine hex.trans fun t ⟨ht, hres⟩ => ?_
+    refine (rv_toResult ihRv name hv sim hpc hc.left hev).trans fun t ⟨ht, hres⟩ => ?_
     refine (exec_moveResultName ht.2 ht.1 hc.right.head).trans fun t2 ⟨ht2, _⟩ => ?_
     rw [hres] at ht2
     have hsim : SimU K stk [] ((σ1.setReg .result n).setReg .name n) t2 := by
@@ -617,7 +650,7 @@ theorem stmt_get (f : Nat) (name : Rv) (hv : RvOK name) : StmtGoal img K (.get n
   · rename_i o' hev
     simp only [Prod.mk.injEq] at h
     obtain ⟨rfl, rfl⟩ := h
-    exact (error_excluded hv hev ho).elim
+    exact (errorC_excluded hev ho).elim
 
 
 /-! ### `printf` -/
@@ -1099,7 +1132,8 @@ theorem stmt_action (f : Nat) (ihOs : OperandsGoal V img K f) (k : ActKind) (ops
 
 /-! ## `if` -/
 
-theorem stmt_ite_none (f : Nat) (ihB : BlockGoal V img K f) (c : Rv) (hcnd : RvOK c) (t : Block)
+theorem stmt_ite_none (f : Nat) (ihRv : RvToGoal V img K f) (ihB : BlockGoal V img K f) (c : Rv)
+    (hcnd : RvC V c) (t : Block)
     (ht : FragBlock V t) : StmtGoal img K (.ite c t none) (f + 1) := by
   intro σ σ' o s pc exit stk sim hpc hc h ho
   simp only [genStmt, genIf, resolve_append, resolve_ins, ins_length, resolve, List.length_append,
@@ -1109,10 +1143,9 @@ theorem stmt_ite_none (f : Nat) (ihB : BlockGoal V img K f) (c : Rv) (hcnd : RvO
   · rename_i o' hev
     simp only [Prod.mk.injEq] at h
     obtain ⟨rfl, rfl⟩ := h
-    exact (error_excluded hcnd hev ho).elim
+    exact (errorC_excluded hev ho).elim
   · rename_i x σ1 hev
-    obtain ⟨rfl, hex⟩ := exec_toResult c hcnd sim hpc hc.left.left hev
-    refine hex.trans fun t0 ⟨ht0, hres⟩ => ?_
+    refine (rv_toResult ihRv c hcnd sim hpc hc.left.left hev).trans fun t0 ⟨ht0, hres⟩ => ?_
     have hj := hc.left.right.head
     by_cases hx : x.truthy = true
     · simp only [hx, if_true] at h
@@ -1126,7 +1159,8 @@ theorem stmt_ite_none (f : Nat) (ihB : BlockGoal V img K f) (c : Rv) (hcnd : RvO
         (by simp) ht0.2 ht0.1 hj (by simp [hres, hx]; omega)).mono fun t1 ht1 => ?_
       simpa [Target] using ht1
 
-theorem stmt_ite_some (f : Nat) (ihB : BlockGoal V img K f) (c : Rv) (hcnd : RvOK c) (t e : Block)
+theorem stmt_ite_some (f : Nat) (ihRv : RvToGoal V img K f) (ihB : BlockGoal V img K f) (c : Rv)
+    (hcnd : RvC V c) (t e : Block)
     (ht : FragBlock V t) (he : FragBlock V e) : StmtGoal img K (.ite c t (some e)) (f + 1) := by
   intro σ σ' o s pc exit stk sim hpc hc h ho
   simp only [genStmt, genIf, resolve_append, resolve_ins, ins_length, resolve, List.length_append,
@@ -1136,10 +1170,9 @@ theorem stmt_ite_some (f : Nat) (ihB : BlockGoal V img K f) (c : Rv) (hcnd : RvO
   · rename_i o' hev
     simp only [Prod.mk.injEq] at h
     obtain ⟨rfl, rfl⟩ := h
-    exact (error_excluded hcnd hev ho).elim
+    exact (errorC_excluded hev ho).elim
   · rename_i x σ1 hev
-    obtain ⟨rfl, hex⟩ := exec_toResult c hcnd sim hpc hc.left.left.left.left hev
-    refine hex.trans fun t0 ⟨ht0, hres⟩ => ?_
+    refine (rv_toResult ihRv c hcnd sim hpc hc.left.left.left.left hev).trans fun t0 ⟨ht0, hres⟩ => ?_
     have hj := hc.left.left.left.right.head
     have hct := hc.left.left.right
     have hj2 := hc.left.right.head
